@@ -3,8 +3,8 @@
    Search cases carry only the outcome class of the real d2compiler.Compile on a generated file set
    (run in a killable worker process under the time bound 50 ms + 2 ms/byte).
    Config cases carry the IR below the root map as the real d2ir.Compile built it (option: None when the
-   harness could not obtain it), which variant of the code is linked (probed by the harness), and the
-   outcome of the real d2compiler.Compile.
+   harness could not obtain it), the variant of the model to compare with (always [Fixed]: the code of
+   /repo since 9d408296b), and the outcome of the real d2compiler.Compile.
 
    codes:  1   model outcome (config value / error positions and classes / crash site) differs from the
                implementation's
